@@ -31,7 +31,7 @@ func pkgConstInt(r *Run, name string) (int64, bool) {
 
 func C09(r *Run) *core.Report {
 	rep := core.NewReport("C09")
-	if !modelOK(r, rep, "C09.X0") {
+	if !modelOKFor(r, rep, "C09.X0", "cache") {
 		return rep
 	}
 	defC, ok1 := pkgConstInt(r, "DefaultExpiration")
